@@ -87,7 +87,7 @@ def batches(programs, max_runs):
     return out
 
 
-def validate(ctx, programs, workers, max_runs=2500, par=2):
+def validate(ctx, programs, workers, max_runs=1600, par=2):
     """-> list of (program, mode, native run, verdict, case), tlc stats"""
     results, stats = [], {"states": 0, "transitions": 0, "tlc_runs": 0, "tlc_wall": 0.0}
 
@@ -235,7 +235,7 @@ def negative_selftest(ctx, programs, workers):
 def run(ctx):
     ctx.level = "translation_validation"
     helper = vlib.go_build_harness(ctx, "cmd/h-irsem")
-    workers = 6
+    workers = 4
 
     if ctx.replay:
         doc = json.load(open(ctx.replay))
@@ -252,7 +252,9 @@ def run(ctx):
     if ctx.quick:
         ngen, futs, maxvec = 4, 5, 16
     else:
-        ngen, futs, maxvec = 40, 6, 64
+        ngen, futs, maxvec = 16, 6, 32
+    if os.environ.get("VERIF_CAP"):      # smoke-run of a tier with fewer generated programs
+        ngen = min(ngen, int(os.environ["VERIF_CAP"]))
     corpus = load_corpus()
     gen = generate(ctx, helper, ngen, futs)
     programs = corpus + gen
